@@ -144,6 +144,13 @@ def make_scenarios(prop, tier, seed):
         fam = fams[i % len(fams)]
         sc = gen.gen_scenario(seed * 1000003 + i * 7919 + hash_prop(prop), fam)
         sc["props"] = [prop]
+        if prop == "C13" and i % 5 == 0 and not sc["probes"].get("c13") and sc["policy"]["kind"] != "multi":
+            # every fifth scenario of the C13 check is replayed in fresh interpreters
+            sc["probes"] = {"c13": 1000 + i * 37 + seed, "shift": 0}
+            if (i // 5) % 3 < 2:
+                sc["seed"] = 0
+        elif prop != "C13" and sc["probes"].get("c13"):
+            sc["probes"]["c13"] = 0   # twins cost seconds each: only the C13 check pays for them
         out.append(sc)
     return out
 
